@@ -252,36 +252,43 @@ Definition exec_op (op : Z) (rest : bytes) (s : rstate) : option rstate :=
 Definition disabled (op : Z) : bool :=
   existsb (Z.eqb op) [0x65; 0x66; 0x7e; 0x7f; 0x80; 0x81; 0x83; 0x84; 0x85; 0x86; 0x8d; 0x8e; 0x95; 0x96; 0x97; 0x98; 0x99].
 
-(* EvalScript: repeat while code remains *)
+(* one operation: size / count / disabled checks, the effect, the stack limit *)
+Definition ref_step (op : Z) (d : option bytes) (rest : bytes) (s : rstate) : option rstate :=
+  let data := match d with Some x => x | None => [] end in
+  let fExec := forallb (fun b => b) (r_vf s) in
+  if lenZ data >? 520 then None else
+  let nop := if op >? 0x60 then r_nop s + 1 else r_nop s in
+  if nop >? 201 then None else
+  if disabled op then None else
+  let s := {| r_stack := r_stack s; r_alt := r_alt s; r_vf := r_vf s; r_sub := r_sub s; r_nop := nop |} in
+  match (if op <=? 0x4e then (if fExec then Some (with_stack s (data :: r_stack s)) else Some s)
+         else if fExec || ((0x63 <=? op) && (op <=? 0x68)) then exec_op op rest s
+         else Some s) with
+  | None => None
+  | Some s' => if lenZ (r_stack s') + lenZ (r_alt s') >? 1000 then None else Some s'
+  end.
+(* EvalScript: repeat while code remains (every operation consumes at least one byte, so
+   fuel = length of the script suffices) *)
 Fixpoint eval_loop (fuel : nat) (code : bytes) (s : rstate) : option rstate :=
   match code with
   | [] => Some s
-  | _ =>
+  | _ :: _ =>
     match fuel with
     | O => None
     | S f =>
       match Spec.Script.get_op code with
       | Err _ => None
       | Ok (op, d, rest) =>
-          let data := match d with Some x => x | None => [] end in
-          let fExec := forallb (fun b => b) (r_vf s) in
-          if lenZ data >? 520 then None else
-          let nop := if op >? 0x60 then r_nop s + 1 else r_nop s in
-          if nop >? 201 then None else
-          if disabled op then None else
-          let s := {| r_stack := r_stack s; r_alt := r_alt s; r_vf := r_vf s; r_sub := r_sub s; r_nop := nop |} in
-          match (if op <=? 0x4e then (if fExec then Some (with_stack s (data :: r_stack s)) else Some s)
-                 else if fExec || ((0x63 <=? op) && (op <=? 0x68)) then exec_op op rest s
-                 else Some s) with
+          match ref_step op d rest s with
           | None => None
-          | Some s' => if lenZ (r_stack s') + lenZ (r_alt s') >? 1000 then None else eval_loop f rest s'
+          | Some s' => eval_loop f rest s'
           end
       end
     end
   end.
 Definition eval_ref (st : list bytes) (script : bytes) : option (list bytes) :=
   if lenZ script >? 10000 then None else
-  match eval_loop (S (length script)) script {| r_stack := st; r_alt := []; r_vf := []; r_sub := script; r_nop := 0 |} with
+  match eval_loop (length script) script {| r_stack := st; r_alt := []; r_vf := []; r_sub := script; r_nop := 0 |} with
   | Some s => if is_nil (r_vf s) then Some (r_stack s) else None
   | None => None
   end.
